@@ -39,6 +39,11 @@ int cmd_open(const Args& a) {
       ExecRes wo = run_exec(S, none, C, ct, fr, pc, 0, nullptr); nexec += 2;
       int k = reg.get(w.closed), k0 = reg.get(wo.closed), ko = oreg.get(w.open);
       os << Ev("OExec").kn("ct", ct).kn("fr", fr).kn("pc", pc).kn("rs", 0).kn("tree", tree).kn("ok", w.ok).kn("k", k).kn("k0", k0).kn("ko", ko).str() << "\n";
+      if (!tree && ct != 0) {   // the closed-only overload Execute(ct, fr, closed) on a clipper that also holds open subjects
+        Clipper64 c; c.PreserveCollinear(pc != 0); if (!S.empty()) c.AddSubject(S); c.AddOpenSubject(O); if (!C.empty()) c.AddClip(C);
+        Paths64 only; bool ok3 = c.Execute((ClipType)ct, (FillRule)fr, only); ++nexec;
+        os << Ev("OExec").kn("ct", ct).kn("fr", fr).kn("pc", pc).kn("rs", 0).kn("tree", 2).kn("ok", ok3).kn("k", reg.get(only)).kn("k0", k0).kn("ko", ko).kn("noopen", 1).str() << "\n";
+      }
     }
     });
   }
